@@ -27,7 +27,7 @@ def jsonable(x, depth=0):
     """Best-effort conversion to something json.dumps accepts."""
     import numpy as np
 
-    if depth > 6:
+    if depth > 14:
         return repr(x)
     if x is None or isinstance(x, (bool, int, str)):
         return x
